@@ -206,9 +206,20 @@ OBSERVABLE_OUT = {'write': 1, 'put': None}
 UNOBSERVABLE = {'seekg', 'seekp', 'sync', 'peek', 'readsome', 'rdbuf', 'unget', 'putback'}
 
 
+STATE_OPS = {'bad', 'eof', 'fail', 'good', 'rdstate'}
+
+
+def is_status_helper(m):
+    """the class's status helper, by role not by name: a parameterless member returning a Status that only inspects the stream
+    state (bad()/eof()/fail()/good()) and moves nothing"""
+    if m.get('params') or 'body' not in m or not (m.get('ret') or '').startswith('nop::Status'):
+        return False
+    names = {ir.callee_name(c) for c in ir.calls(m['body'])}
+    return bool(names & STATE_OPS) and not (names & (set(OBSERVABLE_IN) | set(OBSERVABLE_OUT) | UNOBSERVABLE))
+
+
 def stream_state_fn(db, fn):
-    """the class's status helper: a member whose paths return StreamError exactly when bad() or eof()"""
-    return [m for m in methods_of(db, fn['rec']) if m['n'] == 'ReturnStatus']
+    return [m for m in methods_of(db, fn['rec']) if is_status_helper(m)]
 
 
 def check_return_status(chk, db, fn, rule, label, need_eof):
@@ -248,11 +259,12 @@ def check_stream_class(chk, db, rect, kind, rule, rule_status):
     # the instantiation with the most analysed members (examples instantiate only what they use)
     rec_q = max(classes, key=lambda c: len({m['n'] + str(len(m['params'])) for m in methods_of(db, c)}))
     methods = methods_of(db, rec_q)
-    helpers = one_per_pattern(methods, {'ReturnStatus'})
+    helper_names = {m['n'] for m in methods if is_status_helper(m)}
+    helpers = one_per_pattern(methods, helper_names)
     if not helpers:
         chk.unanalysable(rule_status, rect, 'stream-state helper of %s not found' % rect)
     for m in helpers:
-        check_return_status(chk, db, m, rule_status, rect.replace('nop::', '') + '::ReturnStatus', need_eof=(kind == 'reader'))
+        check_return_status(chk, db, m, rule_status, rect.replace('nop::', '') + '::' + m['n'], need_eof=(kind == 'reader'))
     prims = {'Read', 'Skip'} if kind == 'reader' else {'Write', 'Skip'}
     table = OBSERVABLE_IN if kind == 'reader' else OBSERVABLE_OUT
     state_ops = {'bad', 'eof', 'fail', 'good', 'gcount', 'rdstate'}
@@ -293,7 +305,7 @@ def check_stream_class(chk, db, rect, kind, rule, rule_status):
             for i, e in ops:
                 if e.name not in table and e.name not in state_ops:
                     why.append('uses %s(): a shortfall is not observable through the stream state' % e.name)
-            helper_calls = [i for i, e in enumerate(p.events) if e.kind == 'call' and e.obj == 'this' and e.name == 'ReturnStatus']
+            helper_calls = [i for i, e in enumerate(p.events) if e.kind == 'call' and e.obj == 'this' and e.name in helper_names]
             ret = p.ret
             success = isinstance(ret, StatusVal) and ret.kind == 'ok'
             via_helper = isinstance(ret, StatusVal) and ret.kind == 'call' and ret.arg in helper_calls
